@@ -175,7 +175,7 @@ def encValue (env : Env) (f : Field) : EncKind → Except EncErr Int
   | .date bits =>
     (match f.raw with
      | .none => (match f.value with
-        | .date d => pure d
+        | .date d => if d < 0 ∨ d > ((2 ^ bits : Nat) : Int) - 2 then throw .range else pure d   -- encode_date refuses a date outside the field (fix ccf72e8)
         | .none => pure (((2 ^ bits : Nat) : Int) - 1)      -- encode_date(None, bits): "not available"
         | _ => throw .type_)
      | .int z => pure z
